@@ -46,7 +46,7 @@ Value& ROUNDExpression::value(Context & ctx) const
       break;
     case Type::NUMERIC:
       if (!a1.isNull())
-        d = std::pow(10, Integer(*a1.numeric()));
+        d = std::pow(10, Value::toInteger(*a1.numeric()));
       break;
     default:
       throw RuntimeError(EXC_RT_FUNC_ARG_TYPE_S, KEYWORDS[oper]);
